@@ -21,7 +21,7 @@ func FreeRun(c Case) Result {
 		return res
 	}
 	defer g.close()
-	ids := []string{"X", "Y", "W"}
+	ids := []string{"X", "Y", "W", "x"} // ("x" and "X" are different identifiers)
 	nCallers := 3 + rng.Intn(6)
 	type rec struct {
 		cl      *caller
